@@ -205,6 +205,96 @@ fn random_one_pair_get(src: &mut Src, obs: &mut Obs) -> Res {
     Ok(())
 }
 
+/// the set functions on documents made for them: elements and lists over a small alphabet with values that
+/// are equal without being identical (0.0 / -0.0, equal arrays and objects), arguments `@` and `$.l`
+fn set_function_views(src: &mut Src, obs: &mut Obs) -> Res {
+    fn elem(src: &mut Src, depth: usize) -> J {
+        match src.below(if depth > 0 { 9 } else { 7 }) {
+            0 => J::Float(0.0),
+            1 => J::Float(-0.0),
+            2 => J::Float(*src.pick(&[0.5, 1.5, 1e300])),
+            3 => J::Int(src.range(0, 2)),
+            4 => J::Str(src.pick(&["a", "b", "0"]).to_string()),
+            5 => J::Null,
+            6 => J::Bool(src.bool()),
+            7 => J::Arr((0..src.below(3)).map(|_| elem(src, depth - 1)).collect()),
+            _ => J::Obj(vec![("k".to_string(), elem(src, depth - 1))]),
+        }
+    }
+    let n = 1 + src.below(5);
+    let elems: Vec<J> = (0..n).map(|_| elem(src, 1)).collect();
+    let list: Vec<J> = (0..src.below(6)).map(|_| elem(src, 1)).collect();
+    let arrays = src.bool();
+    let doc = J::Obj(vec![
+        ("e".to_string(), J::Arr(if arrays { elems.into_iter().map(|x| J::Arr(vec![x, J::Float(0.0)])).collect() } else { elems })),
+        ("l".to_string(), J::Arr(list)),
+    ])
+    .sorted_by_name();
+    let f = if arrays { *src.pick(&["any_of", "none_of", "subset_of"]) } else { *src.pick(&["in", "nin"]) };
+    let text = format!("$.e[?{}{}(@, $.l)]", if src.chance(1, 4) { "!" } else { "" }, f);
+    obs.eval(2);
+    obs.label("set-function-on-set-documents");
+    obs.nontrivial(&(text.as_str(), doc.text()), || json!({"query": text, "doc": doc.to_value()}));
+    let rv = run_value(&doc.to_value(), &text);
+    let r1 = run_v1(&V1::from_j(&doc), &text).map(|x| x.0);
+    let same = match (&rv, &r1) {
+        (Ok(a), Ok(b)) => rows_equal(a, b),
+        (Err(a), Err(b)) => a.starts_with("Err") && b.starts_with("Err"),
+        _ => false,
+    };
+    if !same {
+        return Err(Failure::new(
+            "a set function gives different results on serde_json::Value and on a faithful Queryable type that implements it the same way",
+            json!({"query": text, "doc": doc.to_value(), "on_value": show(&rv), "on_other_type": show(&r1)}),
+        ));
+    }
+    Ok(())
+}
+
+/// the documented extension functions are implemented per data type; V1 writes them the way the
+/// implementation for `Value` does (membership by the `==` of the type), so whatever the engine does with
+/// the arguments, the answers must be the same on both
+fn random_extension_views(src: &mut Src, obs: &mut Obs) -> Res {
+    if src.bool() {
+        return set_function_views(src, obs);
+    }
+    let mut cfg = GenCfg::plain();
+    cfg.ext_funcs = true;
+    cfg.funcs = true;
+    cfg.max_width = 5;
+    let doc = gen_doc(src, &cfg).sorted_by_name();
+    let q = gen_query(src, &doc, &cfg);
+    let mut uses_ext = false;
+    let text = render_plain(&q);
+    for f in ["in(", "nin(", "none_of(", "any_of(", "subset_of("] {
+        uses_ext |= text.contains(f);
+    }
+    if !uses_ext {
+        return Ok(());
+    }
+    obs.eval(2);
+    obs.label("extension-function-call");
+    let rv = run_value(&doc.to_value(), &text);
+    let r1 = run_v1(&V1::from_j(&doc), &text).map(|x| x.0);
+    if let Ok(rows) = &rv {
+        if !rows.is_empty() {
+            obs.nontrivial(&(text.as_str(), doc.text()), || json!({"query": text, "doc": doc.to_value(), "results": rows.len()}));
+        }
+    }
+    let same = match (&rv, &r1) {
+        (Ok(a), Ok(b)) => rows_equal(a, b),
+        (Err(a), Err(b)) => a.starts_with("Err") && b.starts_with("Err"),
+        _ => false,
+    };
+    if !same {
+        return Err(Failure::new(
+            "a query with an extension function gives different results on serde_json::Value and on a faithful Queryable type that implements the functions the same way",
+            json!({"query": text, "doc": doc.to_value(), "on_value": show(&rv), "on_other_type": show(&r1)}),
+        ));
+    }
+    Ok(())
+}
+
 /// a float literal beyond the range of f64 reaches the data type through `From<f64>`: whatever the engine
 /// hands over, it must be the same for every type (V1 keeps an infinity it is given, V2 - like
 /// serde_json - turns it into its null)
@@ -485,7 +575,7 @@ fn direct(case: &Value, obs: &mut Obs) -> Res {
 pub fn prop() -> Prop {
     Prop {
         id: ID,
-        rule: "the document-guided query generator (all selectors, filters, comparisons, RFC functions incl. regex; extension functions excluded: they belong to the data type) on documents viewed through serde_json::Value and two harness types implementing Queryable: \
+        rule: "the document-guided query generator (all selectors, filters, comparisons, RFC functions incl. regex; the documented extension functions in a family of their own, V1 implementing them the way the implementation for Value does) on documents viewed through serde_json::Value and two harness types implementing Queryable: \
                V1 (members in insertion order, separate Int/Float variants answering only to as_i64 resp. as_f64, derived PartialEq) and V2 (one f64 number variant, BTreeMap members, as_i64 always None); V3 is V1 with a `get` that strips exactly one pair of enclosing quotes (names that may need escapes, except those ending with a quote character where the two readings of the trait's contract differ). \
                Same member order: paths and values must agree position by position. Shuffled member order (V1): locations (by address) must equal the reference evaluator run on that order, and the multiset of paths must equal the Value run. \
                Non-trivial: non-empty result and the query has a filter, a wildcard or a nested query (and, for the shuffled family, the order really differs from sorted). Distinct by (query text, document).",
@@ -496,6 +586,7 @@ pub fn prop() -> Prop {
         subs: vec![
             Sub { name: "random-diff", kind: Kind::Random { f: random_diff, quick: 240_000, thorough: 4_800_000, len: 500 } },
             Sub { name: "random-object-equality", kind: Kind::Random { f: random_object_equality, quick: 64_000, thorough: 1_280_000, len: 300 } },
+            Sub { name: "random-extension-views", kind: Kind::Random { f: random_extension_views, quick: 120_000, thorough: 2_400_000, len: 500 } },
             Sub { name: "random-number-views", kind: Kind::Random { f: random_number_views, quick: 60_000, thorough: 1_200_000, len: 64 } },
             Sub { name: "random-one-pair-get", kind: Kind::Random { f: random_one_pair_get, quick: 120_000, thorough: 2_400_000, len: 500 } },
             Sub { name: "random-unsorted", kind: Kind::Random { f: random_unsorted, quick: 160_000, thorough: 3_200_000, len: 500 } },
